@@ -75,6 +75,7 @@ func (pl *Playlist) M3u8(token string) ([]byte, error) {
 
 	// 列表部分
 	for _, seg := range segments {
+		simhook.Y("playlist.m3u8.eachEntry")
 		if seg.isSequenceHeader {
 			// #EXT-X-DISCONTINUITY\n
 			fmt.Fprint(w, "#EXT-X-DISCONTINUITY\n")
